@@ -210,7 +210,7 @@ func (g *gjModel) cases() []gjCase {
 
 func c06model(c *Ctx) {
 	m := newClipModel(c)
-	m.it.maxDepth = 14
+	m.it.maxDepth = 48
 	gp := c.P.Pkg("encoding/geojson")
 	geomT := c.P.NamedType("encoding/geojson", "Geometry")
 	toFn, fromFn := c.P.Func("encoding/geojson", "ToGeoJSON"), c.P.Func("encoding/geojson", "FromGeoJSON")
